@@ -82,6 +82,17 @@ func c13Run(w *W, c Case) {
 			distract(ref.Stamp{Y: cy, M: cm, D: cd, H: 12}, j/7)
 		}
 		l := calendar.NewSolar(cy, cm, cd, (j*7)%24, 30, 0).GetLunar()
+		if j%2 == 0 {
+			// a caller that has already asked the same object for its neighbouring terms (by the instant and by the day)
+			l.GetPrevJieQi()
+			l.GetNextJieQi()
+			l.GetPrevJie()
+			l.GetNextQi()
+			if j%4 == 0 {
+				l.GetPrevJieQiByWholeDay(false)
+				l.GetNextJieQiByWholeDay(false)
+			}
+		}
 		// New Year's Eve of the previous day is decided now
 		if prevL != nil {
 			last := l.GetYear() != prevL.GetYear()
